@@ -375,3 +375,10 @@ def c08_dep_sparse(ctx, n):
     ctx.ensure("matvec", bool(np.allclose(sA.dot(v), np.asarray(mA.dot(v), dtype=float))))
     ctx.ensure("diagonal", bool(np.array_equal(sA.diagonal(), np.asarray(mA.diagonal(), dtype=float))))
     ctx.ensure("mixed operands (model @ scipy)", bool(np.array_equal((sA @ sB).toarray(), np.asarray((mA @ sB).toarray(), dtype=float))))
+
+
+@ob("C08.dep_splu", kind="B", samples=(2, 6), funcs=[], tol=1e-11, cite="(validation of an assumed dependency contract)",
+    note="splu(M).solve(b): M x = b, reuse for successive right-hand sides, function of its arguments - against the installed scipy (SuperLU)")
+def c08_dep_splu(ctx):
+    from contracts import deps_validation as dv
+    dv.dep_splu(ctx)
